@@ -10,7 +10,6 @@ int main()
 {
     const size_t n = 16;
     char *buf = (char*)malloc(n);                       // the receive buffer
-    memcpy(buf, "/a\0\0,i\0\0\0\0\0\7" "\0\0\0\0", n);      // "/a" ",i" 7  + 4 trailing NULs -> NOT valid as 16 bytes
     memcpy(buf, "/a\0\0,ii\0\0\0\0\7\0\0\0\10", n);         // "/a" ",ii" 7 8 : canonical, 16 bytes
     bool first = rtosc_valid_message_p(buf, n);
     // next datagram, same size, same buffer: a string argument without terminator
